@@ -32,6 +32,41 @@
 //!                        precedence dictate, performed on a second router with the identical pre-state.
 //! * C15.total.execute — `QueryRouter::{execute, execute_parsed}` never panic on WHERE-clause soup (incl. characters
 //!                        whose upper-case form has a different byte length).
+//! * C15.precedence.postfix — the same "parenthesise the way the table dictates == same parse" clause over the WHOLE expression
+//!                        grammar (`mod postfix`): the 19 binary and 3 unary operators plus every postfix / special form — IS [NOT]
+//!                        NULL, [NOT] IN (0, 1, 2 elements), [NOT] IN (SELECT ..), [NOT] BETWEEN .. AND .., [NOT] LIKE, `x.name`,
+//!                        function calls (0-2 arguments, aggregate keywords, DISTINCT, COUNT(*)), searched and simple CASE (with
+//!                        ELSE), CAST(.. AS ..), EXISTS (..), array and tuple literals.  The oracle is the documented table
+//!                        (expr.rs:7-18: level 11 "Postfix" binds tighter than level 10 unary and all binary levels), written down
+//!                        in `postfix::level` and the operand-position rules of `postfix::pr`, NOT derived from the binding powers.
+//!                        Every tree is printed (Min) with exactly the parentheses the table dictates (plus those at places where
+//!                        the table is silent), (Full) with every operator application parenthesised and (Bare) without the
+//!                        parentheses the table does not dictate (`a BETWEEN b + c AND d`, `a LIKE - b`, `a LIKE b IS NULL`).
+//!                        Min and Full must parse to exactly the tree; Bare must parse to the tree (to a table-respecting
+//!                        derivation of the same text where two level-11 forms meet) OR be rejected with a position inside the
+//!                        input — never a different tree.  Each form goes through BOTH expression parsers, `parse_expr` (expr.rs)
+//!                        and `parse("SELECT * FROM t WHERE <e>")` (parser.rs), which must agree (same tree, or same error class at
+//!                        the same offset).  CAST / EXISTS / IN (SELECT) exist in the statement grammar only: for trees containing
+//!                        them `parse_expr` may reject (position inside the input) and agreement is not required.
+//!                        Domain: all trees of height <= 3 — every constructor (19 binary, 3 unary, 25 special forms) over every
+//!                        height-2 operand (leaf, one binary operator per precedence level, 3 unary, 25 special forms; arity >= 3:
+//!                        every pair of operand positions) = 60 543 trees.  Thorough: height 4 with one deep operand + 30 000 seeded
+//!                        random trees of height <= 8 with literal leaves.
+//! * C15.text.equiv.join_page — `mod page`: `execute_parsed("SELECT * FROM ta <join> tb ..")` for every join kind / spelling of the
+//!                        grammar (JOIN, INNER, LEFT [OUTER], RIGHT [OUTER], FULL [OUTER], CROSS, NATURAL; ON same-named / differently
+//!                        named columns, USING, table aliases) x every subset of {WHERE (left / right column), ORDER BY (ascending
+//!                        unique key; descending where no key is NULL), LIMIT n, OFFSET m}, n, m in {0, 1, 2, size-1, size, size+1}:
+//!                        exactly the rows, IN THE ORDER, of the direct `RelationalEngine::{join, left_join, right_join, full_join,
+//!                        cross_join, natural_join}` call on a second router with the identical pre-state, filtered, sorted on the
+//!                        unique key if ORDER BY is present (otherwise the engine's own order, which is deterministic), then
+//!                        `.skip(m).take(n)`; the engine state is unchanged.  Plus plain `SELECT * FROM t` with the same grid
+//!                        (4 ORDER BY shapes) through `execute_parsed`, and through `execute` for [WHERE] [LIMIT] (all its grammar has).
+//! * C15.text.equiv.join_where / .order_nulls / .legacy_page — same machinery, clauses that the CURRENT tree violates (kept apart so
+//!                        that the grid above stays green): AND / OR / NOT / IS NULL in the WHERE clause of a join (SQL three-valued
+//!                        logic on the missing side of outer joins); explicit NULLS FIRST / LAST with ASC and DESC on a nullable
+//!                        column and on the missing side of a LEFT JOIN; OFFSET / ORDER BY through the legacy `execute` entry point.
+//!   (`bounded replay c15_parser C15.debug.expr '{"text": ".."}'` / `C15.debug.query '{"text": "..", "entry": ".."}'` print what the two
+//!    expression parsers / the router on the paging fixture return for a text; they are triage helpers, not obligations.)
 use crate::fw::{no_panic, Report, Rng, Tier};
 use neumann_parser::{parse, parse_all, parse_expr, tokenize, BinaryOp, Expr, ExprKind, ParseError, ParseErrorKind, Span, StatementKind, UnaryOp};
 use serde_json::{json, Value};
@@ -472,7 +507,7 @@ mod equiv {
     }
 
     /// whole observable view of the three engines
-    fn state_img(r: &QueryRouter) -> String {
+    pub fn state_img(r: &QueryRouter) -> String {
         let mut tables = r.relational().list_tables();
         tables.sort();
         let t: Vec<String> = tables.iter().map(|t| format!("{t}{:?}:{}", r.relational().get_schema(t).map(|s| s.columns.iter().map(|c| format!("{}:{:?}:{}", c.name, c.column_type, c.nullable)).collect::<Vec<_>>()).ok(),
@@ -626,9 +661,852 @@ mod equiv {
     }
 }
 
+
+// ---------------------------------------------------------------------------------------------
+// C15.precedence.postfix — the whole expression grammar (binary, unary, postfix / special forms)
+// ---------------------------------------------------------------------------------------------
+mod postfix {
+    use super::{bin_from_name, bin_lexeme, doc_level, leaf_name, short, span_inside, un_from_name, un_lexeme, BINOPS, LEVEL_REPS, UNOPS};
+    use crate::fw::{no_panic, Rng};
+    use neumann_parser::{parse, parse_expr, BinaryOp, Expr, ExprKind, InList, Literal, ParseError, StatementKind, TableRefKind, UnaryOp};
+    use serde_json::{json, Value};
+
+    /// Expression tree over EVERY operator of the expression grammar.
+    #[derive(Clone, PartialEq, Debug)]
+    pub enum P {
+        Leaf(String),
+        /// literal printed verbatim (1, 's', NULL, TRUE)
+        Lit(String),
+        Un(UnaryOp, Box<P>),
+        Bin(Box<P>, BinaryOp, Box<P>),
+        /// x IS [NOT] NULL
+        IsNull(Box<P>, bool),
+        /// x [NOT] IN (e, ...)
+        In(Box<P>, Vec<P>, bool),
+        /// x [NOT] BETWEEN low AND high
+        Between(Box<P>, Box<P>, Box<P>, bool),
+        /// x [NOT] LIKE pattern
+        Like(Box<P>, Box<P>, bool),
+        /// x.name
+        Qual(Box<P>, String),
+        /// name([DISTINCT] args)
+        Call(String, bool, Vec<P>),
+        /// CASE [operand] WHEN c THEN r ... [ELSE e] END
+        Case(Option<Box<P>>, Vec<(P, P)>, Option<Box<P>>),
+        /// CAST(x AS type) — only the statement grammar has it
+        Cast(Box<P>, String),
+        Array(Vec<P>),
+        Tuple(Vec<P>),
+        /// x [NOT] IN (SELECT 1) — only the statement grammar has sub-queries
+        InSub(Box<P>, bool),
+        /// EXISTS (SELECT 1) — statement grammar only
+        Exists,
+        Other(String),
+    }
+
+    // ---- the DOCUMENTED table (expr.rs header lines 7-18), transcribed independently of the binding-power functions:
+    //   levels 1..9 binary (see `doc_level`), all left-associative; 10 unary NOT - ~; 11 postfix (IS NULL, IN, BETWEEN, LIKE, `.`),
+    //   i.e. a postfix form binds TIGHTER than every unary and binary operator.  Function calls are listed at level 11 too but are
+    //   syntactically closed (name + parenthesised arguments), like CASE..END, CAST(..), [..] and (.., ..): they never need parentheses.
+    const LV_UNARY: u8 = 10;
+    const LV_POSTFIX: u8 = 11;
+    const LV_ATOM: u8 = 12;
+
+    fn level(t: &P) -> u8 {
+        match t {
+            P::Bin(_, o, _) => doc_level(*o),
+            P::Un(..) => LV_UNARY,
+            P::IsNull(..) | P::In(..) | P::InSub(..) | P::Between(..) | P::Like(..) | P::Qual(..) => LV_POSTFIX,
+            _ => LV_ATOM,
+        }
+    }
+    /// postfix forms whose text ENDS with an operand (the table is silent on how two level-11 forms associate there)
+    fn right_open(t: &P) -> bool { matches!(t, P::Like(..) | P::Between(..)) }
+    /// does the subtree contain an AND operator or a BETWEEN (its text would be ambiguous in front of BETWEEN's own AND)?
+    fn has_and(t: &P) -> bool {
+        match t {
+            P::Leaf(_) | P::Lit(_) | P::Other(_) | P::Exists => false,
+            P::Un(_, x) | P::IsNull(x, _) | P::Qual(x, _) | P::Cast(x, _) | P::InSub(x, _) => has_and(x),
+            P::Bin(l, o, r) => *o == BinaryOp::And || has_and(l) || has_and(r),
+            P::In(x, l, _) => has_and(x) || l.iter().any(has_and),
+            P::Between(..) => true,
+            P::Like(x, y, _) => has_and(x) || has_and(y),
+            P::Call(_, _, a) | P::Array(a) | P::Tuple(a) => a.iter().any(has_and),
+            P::Case(o, w, e) => o.as_deref().is_some_and(has_and) || w.iter().any(|(c, r)| has_and(c) || has_and(r)) || e.as_deref().is_some_and(has_and),
+        }
+    }
+    /// does the tree use a form that only the statement grammar has (CAST, sub-queries)?
+    pub fn has_cast(t: &P) -> bool {
+        match t {
+            P::Leaf(_) | P::Lit(_) | P::Other(_) => false,
+            P::Cast(..) | P::InSub(..) | P::Exists => true,
+            P::Un(_, x) | P::IsNull(x, _) | P::Qual(x, _) => has_cast(x),
+            P::Bin(l, _, r) | P::Like(l, r, _) => has_cast(l) || has_cast(r),
+            P::In(x, l, _) => has_cast(x) || l.iter().any(has_cast),
+            P::Between(x, l, h, _) => has_cast(x) || has_cast(l) || has_cast(h),
+            P::Call(_, _, a) | P::Array(a) | P::Tuple(a) => a.iter().any(has_cast),
+            P::Case(o, w, e) => o.as_deref().is_some_and(has_cast) || w.iter().any(|(c, r)| has_cast(c) || has_cast(r)) || e.as_deref().is_some_and(has_cast),
+        }
+    }
+
+    /// Full: every operator application is parenthesised (the grouping the table dictates, made explicit).
+    /// Min:  only the parentheses the table dictates, plus those at places where the table is silent or the current grammar is
+    ///       known to be stricter than the table (operands of LIKE / BETWEEN that are not atoms).
+    /// Bare: Min without the parentheses that the table does NOT dictate: (a) a unary operator, or a binary expression without AND,
+    ///       as BETWEEN's lower bound (enclosed by BETWEEN .. AND), a unary operator as LIKE pattern / upper bound (one derivation
+    ///       only) and (b) two level-11 forms meeting at a right-open operand (`a LIKE b IS NULL`: the table gives no associativity
+    ///       -> `ambiguous`).
+    #[derive(Clone, Copy, PartialEq, Debug)]
+    pub enum Mode { Full, Min, Bare }
+
+    pub struct Pr { pub out: String, pub dropped: bool, pub ambiguous: bool }
+
+    fn wrap(t: &P, m: Mode, w: &mut Pr, parens: bool) {
+        if parens { w.out.push('('); }
+        pr(t, m, w);
+        if parens { w.out.push(')'); }
+    }
+    /// operand at an ENCLOSED position (between delimiters): never needs parentheses
+    fn enclosed(t: &P, m: Mode, w: &mut Pr) { pr(t, m, w); }
+    fn list(items: &[P], m: Mode, w: &mut Pr) {
+        for (i, x) in items.iter().enumerate() { if i > 0 { w.out.push_str(", "); } enclosed(x, m, w); }
+    }
+    /// the tested (left) operand of a postfix form
+    fn tested(x: &P, m: Mode, w: &mut Pr) {
+        let lx = level(x);
+        if m == Mode::Full { return pr(x, m, w); }
+        if lx < LV_POSTFIX { return wrap(x, m, w, true); }
+        if lx == LV_POSTFIX && right_open(x) {
+            if m == Mode::Bare { w.dropped = true; w.ambiguous = true; return wrap(x, m, w, false); }
+            return wrap(x, m, w, true);
+        }
+        wrap(x, m, w, false)
+    }
+    /// LIKE pattern / BETWEEN upper bound: the text of the form ends with this operand
+    fn right_operand(x: &P, m: Mode, w: &mut Pr) {
+        let lx = level(x);
+        if m == Mode::Full || lx == LV_ATOM { return pr(x, m, w); }
+        if lx < LV_UNARY { return wrap(x, m, w, true); }
+        if m == Mode::Bare { w.dropped = true; if lx == LV_POSTFIX { w.ambiguous = true; } return wrap(x, m, w, false); }
+        wrap(x, m, w, true)
+    }
+    /// BETWEEN lower bound: enclosed by BETWEEN .. AND
+    fn low_operand(x: &P, m: Mode, w: &mut Pr) {
+        if m == Mode::Full || level(x) == LV_ATOM { return pr(x, m, w); }
+        if m == Mode::Bare && !has_and(x) { w.dropped = true; return wrap(x, m, w, false); }
+        wrap(x, m, w, true)
+    }
+
+    fn pr(t: &P, m: Mode, w: &mut Pr) {
+        let full = m == Mode::Full && level(t) < LV_ATOM;
+        if full { w.out.push('('); }
+        match t {
+            P::Leaf(n) | P::Lit(n) | P::Other(n) => w.out.push_str(n),
+            P::Un(o, x) => {
+                w.out.push_str(un_lexeme(*o));
+                w.out.push(' ');
+                wrap(x, m, w, m != Mode::Full && level(x) < LV_UNARY);
+            },
+            P::Bin(l, o, r) => {
+                let lv = doc_level(*o);
+                wrap(l, m, w, m != Mode::Full && level(l) < lv);
+                w.out.push(' '); w.out.push_str(bin_lexeme(*o)); w.out.push(' ');
+                wrap(r, m, w, m != Mode::Full && level(r) <= lv);
+            },
+            P::IsNull(x, neg) => { tested(x, m, w); w.out.push_str(if *neg { " IS NOT NULL" } else { " IS NULL" }); },
+            P::In(x, l, neg) => { tested(x, m, w); w.out.push_str(if *neg { " NOT IN (" } else { " IN (" }); list(l, m, w); w.out.push(')'); },
+            P::Between(x, lo, hi, neg) => {
+                tested(x, m, w);
+                w.out.push_str(if *neg { " NOT BETWEEN " } else { " BETWEEN " });
+                low_operand(lo, m, w);
+                w.out.push_str(" AND ");
+                right_operand(hi, m, w);
+            },
+            P::Like(x, p, neg) => { tested(x, m, w); w.out.push_str(if *neg { " NOT LIKE " } else { " LIKE " }); right_operand(p, m, w); },
+            P::Qual(x, n) => { tested(x, m, w); w.out.push('.'); w.out.push_str(n); },
+            P::Call(n, d, a) => { w.out.push_str(n); w.out.push('('); if *d { w.out.push_str("DISTINCT "); } list(a, m, w); w.out.push(')'); },
+            P::Case(o, wh, e) => {
+                w.out.push_str("CASE");
+                if let Some(o) = o { w.out.push(' '); enclosed(o, m, w); }
+                for (c, r) in wh { w.out.push_str(" WHEN "); enclosed(c, m, w); w.out.push_str(" THEN "); enclosed(r, m, w); }
+                if let Some(e) = e { w.out.push_str(" ELSE "); enclosed(e, m, w); }
+                w.out.push_str(" END");
+            },
+            P::Cast(x, ty) => { w.out.push_str("CAST("); enclosed(x, m, w); w.out.push_str(" AS "); w.out.push_str(&ty.to_uppercase()); w.out.push(')'); },
+            P::Array(a) => { w.out.push('['); list(a, m, w); w.out.push(']'); },
+            P::Tuple(a) => { w.out.push('('); list(a, m, w); w.out.push(')'); },
+            P::InSub(x, neg) => { tested(x, m, w); w.out.push_str(if *neg { " NOT IN (SELECT 1)" } else { " IN (SELECT 1)" }); },
+            P::Exists => w.out.push_str("EXISTS (SELECT 1)"),
+        }
+        if full { w.out.push(')'); }
+    }
+
+    pub fn print(t: &P, m: Mode) -> Pr {
+        let mut w = Pr { out: String::new(), dropped: false, ambiguous: false };
+        pr(t, m, &mut w);
+        w
+    }
+
+    /// is the sub-query exactly `SELECT 1`?
+    fn select_one(s: &neumann_parser::SelectStmt) -> bool {
+        s.columns.len() == 1 && s.columns[0].alias.is_none() && matches!(s.columns[0].expr.kind, ExprKind::Literal(Literal::Integer(1))) && s.from.is_none() && s.where_clause.is_none()
+            && s.group_by.is_empty() && s.having.is_none() && s.order_by.is_empty() && s.limit.is_none() && s.offset.is_none() && !s.distinct
+    }
+
+    pub fn strip(e: &Expr) -> P {
+        let b = |x: &Expr| Box::new(strip(x));
+        match &e.kind {
+            ExprKind::Wildcard => P::Lit("*".to_string()),
+            ExprKind::In { expr, list: InList::Subquery(q), negated } if select_one(q) => P::InSub(b(expr), *negated),
+            ExprKind::Exists(q) if select_one(q) => P::Exists,
+            ExprKind::Ident(i) => P::Leaf(i.name.clone()),
+            ExprKind::Literal(l) => P::Lit(match l {
+                Literal::Null => "NULL".to_string(),
+                Literal::Boolean(v) => if *v { "TRUE".to_string() } else { "FALSE".to_string() },
+                Literal::Integer(n) => n.to_string(),
+                Literal::Float(f) => format!("{f:?}"),
+                Literal::String(s) => format!("'{s}'"),
+            }),
+            ExprKind::Unary(o, x) => P::Un(*o, b(x)),
+            ExprKind::Binary(l, o, r) => P::Bin(b(l), *o, b(r)),
+            ExprKind::IsNull { expr, negated } => P::IsNull(b(expr), *negated),
+            ExprKind::In { expr, list: InList::Values(v), negated } => P::In(b(expr), v.iter().map(strip).collect(), *negated),
+            ExprKind::Between { expr, low, high, negated } => P::Between(b(expr), b(low), b(high), *negated),
+            ExprKind::Like { expr, pattern, negated } => P::Like(b(expr), b(pattern), *negated),
+            ExprKind::Qualified(x, n) => P::Qual(b(x), n.name.clone()),
+            ExprKind::Call(c) => P::Call(c.name.name.clone(), c.distinct, c.args.iter().map(strip).collect()),
+            ExprKind::Case(c) => P::Case(c.operand.as_deref().map(|x| Box::new(strip(x))), c.when_clauses.iter().map(|w| (strip(&w.condition), strip(&w.result))).collect(), c.else_clause.as_deref().map(|x| Box::new(strip(x)))),
+            ExprKind::Cast(x, ty) => P::Cast(b(x), format!("{ty:?}")),
+            ExprKind::Array(a) => P::Array(a.iter().map(strip).collect()),
+            ExprKind::Tuple(a) => P::Tuple(a.iter().map(strip).collect()),
+            k => P::Other(short(&format!("{k:?}"))),
+        }
+    }
+
+    pub fn to_json(t: &P) -> Value {
+        let l = |a: &[P]| Value::Array(a.iter().map(to_json).collect());
+        match t {
+            P::Leaf(n) => json!(n),
+            P::Lit(n) => json!({"lit": n}),
+            P::Other(n) => json!({"other": n}),
+            P::Un(o, x) => json!([format!("{o:?}"), to_json(x)]),
+            P::Bin(a, o, b) => json!([to_json(a), format!("{o:?}"), to_json(b)]),
+            P::IsNull(x, n) => json!({"is_null": to_json(x), "neg": n}),
+            P::In(x, v, n) => json!({"in": to_json(x), "list": l(v), "neg": n}),
+            P::Between(x, lo, hi, n) => json!({"between": to_json(x), "low": to_json(lo), "high": to_json(hi), "neg": n}),
+            P::Like(x, p, n) => json!({"like": to_json(x), "pat": to_json(p), "neg": n}),
+            P::Qual(x, n) => json!({"qual": to_json(x), "name": n}),
+            P::Call(n, d, a) => json!({"call": n, "distinct": d, "args": l(a)}),
+            P::Case(o, w, e) => json!({"case": o.as_deref().map(to_json), "when": w.iter().map(|(c, r)| json!([to_json(c), to_json(r)])).collect::<Vec<_>>(), "else": e.as_deref().map(to_json)}),
+            P::Cast(x, ty) => json!({"cast": to_json(x), "ty": ty}),
+            P::Array(a) => json!({"array": l(a)}),
+            P::Tuple(a) => json!({"tuple": l(a)}),
+            P::InSub(x, n) => json!({"in_subquery": to_json(x), "neg": n}),
+            P::Exists => json!({"exists": true}),
+        }
+    }
+
+    pub fn from_json(v: &Value) -> Option<P> {
+        let b = |x: &Value| from_json(x).map(Box::new);
+        let l = |x: &Value| x.as_array()?.iter().map(from_json).collect::<Option<Vec<P>>>();
+        let neg = |o: &serde_json::Map<String, Value>| o.get("neg").and_then(Value::as_bool).unwrap_or(false);
+        match v {
+            Value::String(s) => Some(P::Leaf(s.clone())),
+            Value::Array(a) if a.len() == 2 => Some(P::Un(un_from_name(a[0].as_str()?)?, b(&a[1])?)),
+            Value::Array(a) if a.len() == 3 => Some(P::Bin(b(&a[0])?, bin_from_name(a[1].as_str()?)?, b(&a[2])?)),
+            Value::Object(o) => {
+                if let Some(x) = o.get("lit") { return Some(P::Lit(x.as_str()?.to_string())); }
+                if let Some(x) = o.get("other") { return Some(P::Other(x.as_str()?.to_string())); }
+                if let Some(x) = o.get("is_null") { return Some(P::IsNull(b(x)?, neg(o))); }
+                if let Some(x) = o.get("in") { return Some(P::In(b(x)?, l(o.get("list")?)?, neg(o))); }
+                if let Some(x) = o.get("between") { return Some(P::Between(b(x)?, b(o.get("low")?)?, b(o.get("high")?)?, neg(o))); }
+                if let Some(x) = o.get("like") { return Some(P::Like(b(x)?, b(o.get("pat")?)?, neg(o))); }
+                if let Some(x) = o.get("qual") { return Some(P::Qual(b(x)?, o.get("name")?.as_str()?.to_string())); }
+                if let Some(x) = o.get("call") { return Some(P::Call(x.as_str()?.to_string(), o.get("distinct").and_then(Value::as_bool).unwrap_or(false), l(o.get("args")?)?)); }
+                if let Some(x) = o.get("case") {
+                    let wh = o.get("when")?.as_array()?.iter().map(|p| { let p = p.as_array()?; if p.len() != 2 { return None; } Some((from_json(&p[0])?, from_json(&p[1])?)) }).collect::<Option<Vec<_>>>()?;
+                    let op = if x.is_null() { None } else { Some(b(x)?) };
+                    let el = match o.get("else") { None | Some(Value::Null) => None, Some(e) => Some(b(e)?) };
+                    return Some(P::Case(op, wh, el));
+                }
+                if let Some(x) = o.get("cast") { return Some(P::Cast(b(x)?, o.get("ty")?.as_str()?.to_string())); }
+                if let Some(x) = o.get("array") { return Some(P::Array(l(x)?)); }
+                if let Some(x) = o.get("tuple") { return Some(P::Tuple(l(x)?)); }
+                if let Some(x) = o.get("in_subquery") { return Some(P::InSub(b(x)?, neg(o))); }
+                if o.get("exists").is_some() { return Some(P::Exists); }
+                None
+            },
+            _ => None,
+        }
+    }
+
+    // ---- the two entry points
+    const WHERE_PREFIX: &str = "SELECT * FROM t WHERE ";
+
+    /// Ok(tree) | Err((error class, start relative to the expression text, span inside the whole input, message))
+    type Parsed = Result<P, (String, i64, bool, String)>;
+
+    fn err_img(e: &ParseError, input: &str, prefix: usize) -> (String, i64, bool, String) {
+        let class = match &e.kind {
+            neumann_parser::ParseErrorKind::UnexpectedToken { .. } => "UnexpectedToken",
+            neumann_parser::ParseErrorKind::UnexpectedEof { .. } => "UnexpectedEof",
+            neumann_parser::ParseErrorKind::InvalidSyntax(_) => "InvalidSyntax",
+            neumann_parser::ParseErrorKind::TooDeep => "TooDeep",
+            _ => "Other",
+        };
+        (class.to_string(), i64::from(e.span.start.0) - prefix as i64, span_inside(e.span, input), format!("{e} @ {}..{} of {}", e.span.start.0, e.span.end.0, input.len()))
+    }
+
+    fn via_expr(text: &str) -> Result<Parsed, String> {
+        match no_panic(|| parse_expr(text)) {
+            Ok(Ok(e)) => Ok(Ok(strip(&e))),
+            Ok(Err(e)) => Ok(Err(err_img(&e, text, 0))),
+            Err(p) => Err(format!("parse_expr({text:?}) PANICKED: {p}")),
+        }
+    }
+
+    fn via_where(text: &str) -> Result<Parsed, String> {
+        let q = format!("{WHERE_PREFIX}{text}");
+        match no_panic(|| parse(&q)) {
+            Ok(Ok(st)) => match st.kind {
+                StatementKind::Select(sel) if sel.where_clause.is_some() && sel.columns.len() == 1 && matches!(sel.columns[0].expr.kind, ExprKind::Wildcard)
+                    && sel.from.as_ref().is_some_and(|f| f.joins.is_empty() && matches!(&f.table.kind, TableRefKind::Table(i) if i.name == "t") && f.table.alias.is_none())
+                    && sel.group_by.is_empty() && sel.having.is_none() && sel.order_by.is_empty() && sel.limit.is_none() && sel.offset.is_none() && !sel.distinct =>
+                    match sel.where_clause.as_deref() { Some(w) => Ok(Ok(strip(w))), None => Err("no WHERE".into()) },
+                k => Err(format!("parse({q:?}) is not `SELECT * FROM t WHERE <one expression>`: {}", short(&format!("{k:?}")))),
+            },
+            Ok(Err(e)) => Ok(Err(err_img(&e, &q, WHERE_PREFIX.len()))),
+            Err(p) => Err(format!("parse({q:?}) PANICKED: {p}")),
+        }
+    }
+
+    fn img(r: &Parsed) -> String {
+        match r { Ok(t) => to_json(t).to_string(), Err((c, at, _, m)) => format!("ERROR[{c} at expression offset {at}: {m}]") }
+    }
+
+    /// Evaluates the obligation for one labelled tree; Ok(number of parser calls) | Err(what was observed vs. dictated).
+    pub fn eval(t: &P) -> Result<u32, String> {
+        let stmt_only = has_cast(t);
+        let mut calls = 0u32;
+        let want = to_json(t).to_string();
+        for mode in [Mode::Min, Mode::Full, Mode::Bare] {
+            let p = print(t, mode);
+            if mode == Mode::Bare && !p.dropped { continue; }
+            let text = p.out;
+            let re = via_expr(&text)?;
+            let rw = via_where(&text)?;
+            calls += 2;
+            for (entry, r) in [("parse_expr", &re), ("parse(SELECT * FROM t WHERE ..)", &rw)] {
+                // an error must always carry a position inside the input
+                if let Err((_, _, false, m)) = r { return Err(format!("{entry} on the {mode:?} form {text:?}: error position outside the input: {m}")); }
+                let strict = mode != Mode::Bare && !(stmt_only && entry == "parse_expr");
+                let ok = match r {
+                    Ok(got) if got == t => true,
+                    // two level-11 forms at a right-open operand: any derivation of the SAME text that respects the table
+                    Ok(got) if mode == Mode::Bare && p.ambiguous => print(got, Mode::Bare).out == text,
+                    Ok(_) => false,
+                    Err(_) => !strict,
+                };
+                if !ok {
+                    return Err(format!("{entry} on the {mode:?} form {text:?} gives {} but the documented table dictates {want}{}", img(r),
+                        if strict { "" } else { " (or a parse error positioned inside the input)" }));
+                }
+            }
+            // both grammars must agree (same tree, or same error class at the same place); CAST exists in the statement grammar only
+            if !stmt_only {
+                let same = match (&re, &rw) {
+                    (Ok(a), Ok(b)) => a == b,
+                    (Err((c1, at1, _, _)), Err((c2, at2, _, _))) => c1 == c2 && at1 == at2,
+                    _ => false,
+                };
+                if !same { return Err(format!("the two expression parsers disagree on the {mode:?} form {text:?}: parse_expr => {}; statement parser (WHERE) => {}", img(&re), img(&rw))); }
+            }
+        }
+        Ok(calls)
+    }
+
+    // ---- enumeration
+    /// node constructors
+    #[derive(Clone, Debug)]
+    pub enum K { Bin(BinaryOp), Un(UnaryOp), IsNull(bool), In(usize, bool), Between(bool), Like(bool), Qual, Call(&'static str, bool, usize), CountStar, CaseSearched, CaseSimpleElse, Cast, Array(usize), Tuple(usize), InSub(bool), Exists }
+
+    impl K {
+        pub fn arity(&self) -> usize {
+            match self {
+                K::Bin(_) | K::Like(_) | K::CaseSearched => 2,
+                K::Un(_) | K::IsNull(_) | K::Qual | K::Cast | K::InSub(_) => 1,
+                K::CountStar | K::Exists => 0,
+                K::In(n, _) => 1 + n,
+                K::Between(_) => 3,
+                K::Call(_, _, n) | K::Array(n) | K::Tuple(n) => *n,
+                K::CaseSimpleElse => 4,
+            }
+        }
+        pub fn build(&self, mut a: Vec<P>) -> P {
+            assert_eq!(a.len(), self.arity());
+            let mut next = || Box::new(a.remove(0));
+            match self {
+                K::Bin(o) => { let l = next(); let r = next(); P::Bin(l, *o, r) },
+                K::Un(o) => P::Un(*o, next()),
+                K::IsNull(n) => P::IsNull(next(), *n),
+                K::In(_, n) => { let x = next(); P::In(x, a, *n) },
+                K::Between(n) => { let x = next(); let lo = next(); let hi = next(); P::Between(x, lo, hi, *n) },
+                K::Like(n) => { let x = next(); let p = next(); P::Like(x, p, *n) },
+                K::Qual => P::Qual(next(), "q1".to_string()),
+                K::Call(name, d, _) => P::Call((*name).to_string(), *d, a),
+                K::CaseSearched => { let c = next(); let r = next(); P::Case(None, vec![(*c, *r)], None) },
+                K::CaseSimpleElse => { let o = next(); let c = next(); let r = next(); let e = next(); P::Case(Some(o), vec![(*c, *r)], Some(e)) },
+                K::Cast => P::Cast(next(), "Int".to_string()),
+                K::Array(_) => P::Array(a),
+                K::Tuple(_) => P::Tuple(a),
+                K::CountStar => P::Call("COUNT".to_string(), false, vec![P::Lit("*".to_string())]),
+                K::InSub(n) => P::InSub(next(), *n),
+                K::Exists => P::Exists,
+            }
+        }
+    }
+
+    /// every special (non binary / unary) form of the grammar
+    pub fn special_forms() -> Vec<K> {
+        vec![K::IsNull(false), K::IsNull(true), K::In(0, false), K::In(1, false), K::In(2, false), K::In(1, true), K::Between(false), K::Between(true),
+             K::Like(false), K::Like(true), K::Qual, K::Call("fn1", false, 0), K::Call("fn1", false, 1), K::Call("fn1", false, 2), K::Call("SUM", false, 1),
+             K::Call("COUNT", true, 1), K::CountStar, K::CaseSearched, K::CaseSimpleElse, K::Cast, K::Array(2), K::Tuple(2), K::InSub(false), K::InSub(true), K::Exists]
+    }
+    pub fn ctors(all_binary: bool) -> Vec<K> {
+        let mut v: Vec<K> = if all_binary { BINOPS.iter().map(|o| K::Bin(*o)).collect() } else { LEVEL_REPS.iter().map(|o| K::Bin(*o)).collect() };
+        v.extend(UNOPS.iter().map(|o| K::Un(*o)));
+        v.extend(special_forms());
+        v
+    }
+    pub fn hole() -> P { P::Leaf(String::new()) }
+
+    /// leaf + every constructor of `ks` over leaves (height <= 2)
+    pub fn height2(ks: &[K]) -> Vec<P> {
+        let mut v = vec![hole()];
+        for k in ks { v.push(k.build(vec![hole(); k.arity()])); }
+        v
+    }
+
+    /// Calls `f` on every tree `k(children)` where the children are taken from `sub`: all combinations for arity <= 2, for larger
+    /// arities all combinations at every PAIR of operand positions (the others are leaves).
+    pub fn over(k: &K, sub: &[P], f: &mut dyn FnMut(P)) {
+        let n = k.arity();
+        match n {
+            0 => f(k.build(vec![])),
+            1 => for x in sub { f(k.build(vec![x.clone()])); },
+            2 => for x in sub { for y in sub { f(k.build(vec![x.clone(), y.clone()])); } },
+            _ => {
+                let mut seen = std::collections::HashSet::new();
+                for i in 0..n { for j in i + 1..n { for x in sub { for y in sub {
+                    let mut a = vec![hole(); n];
+                    a[i] = x.clone();
+                    a[j] = y.clone();
+                    let t = k.build(a);
+                    if seen.insert(format!("{t:?}")) { f(t); }
+                } } } }
+            },
+        }
+    }
+
+    /// one operand position gets a tree of `sub`, the others are leaves
+    pub fn one_hole(k: &K, sub: &[P], f: &mut dyn FnMut(P)) {
+        let n = k.arity();
+        for i in 0..n { for x in sub { let mut a = vec![hole(); n]; a[i] = x.clone(); f(k.build(a)); } }
+    }
+
+    /// names the leaves a, b, c, ... from left to right
+    pub fn label(t: &P, k: &mut usize) -> P {
+        let b = |x: &P, k: &mut usize| Box::new(label(x, k));
+        match t {
+            P::Leaf(_) => { let r = P::Leaf(leaf_name(*k)); *k += 1; r },
+            P::Lit(s) => P::Lit(s.clone()),
+            P::Other(s) => P::Other(s.clone()),
+            P::Un(o, x) => P::Un(*o, b(x, k)),
+            P::Bin(l, o, r) => { let l2 = b(l, k); let r2 = b(r, k); P::Bin(l2, *o, r2) },
+            P::IsNull(x, n) => P::IsNull(b(x, k), *n),
+            P::In(x, v, n) => { let x2 = b(x, k); P::In(x2, v.iter().map(|y| label(y, k)).collect(), *n) },
+            P::Between(x, lo, hi, n) => { let x2 = b(x, k); let l2 = b(lo, k); let h2 = b(hi, k); P::Between(x2, l2, h2, *n) },
+            P::Like(x, p, n) => { let x2 = b(x, k); let p2 = b(p, k); P::Like(x2, p2, *n) },
+            P::Qual(x, n) => P::Qual(b(x, k), n.clone()),
+            P::Call(n, d, a) => P::Call(n.clone(), *d, a.iter().map(|y| label(y, k)).collect()),
+            P::Case(o, w, e) => {
+                let o2 = o.as_deref().map(|x| Box::new(label(x, k)));
+                let w2 = w.iter().map(|(c, r)| { let c2 = label(c, k); let r2 = label(r, k); (c2, r2) }).collect();
+                let e2 = e.as_deref().map(|x| Box::new(label(x, k)));
+                P::Case(o2, w2, e2)
+            },
+            P::Cast(x, ty) => P::Cast(b(x, k), ty.clone()),
+            P::Array(a) => P::Array(a.iter().map(|y| label(y, k)).collect()),
+            P::Tuple(a) => P::Tuple(a.iter().map(|y| label(y, k)).collect()),
+            P::InSub(x, n) => P::InSub(b(x, k), *n),
+            P::Exists => P::Exists,
+        }
+    }
+
+    /// seeded random tree of height <= h over all constructors; literals as some leaves (never directly under `.`)
+    pub fn random(rng: &mut Rng, h: usize, ks: &[K], lit_ok: bool) -> P {
+        if h <= 1 || rng.below(6) == 0 {
+            if lit_ok && rng.below(4) == 0 { return P::Lit(["1", "'s'", "NULL", "TRUE", "42"][rng.below(5) as usize].to_string()); }
+            return hole();
+        }
+        // half of the inner nodes binary / unary, half special forms
+        let k = if rng.below(2) == 0 { let i = rng.below(22) as usize; if i < 19 { K::Bin(BINOPS[i]) } else { K::Un(UNOPS[i - 19]) } } else { ks[rng.below(ks.len() as u64) as usize].clone() };
+        let n = k.arity();
+        let kids: Vec<P> = (0..n).map(|i| random(rng, h - 1, ks, !(matches!(k, K::Qual) && i == 0))).collect();
+        k.build(kids)
+    }
+}
+
+
+// ---------------------------------------------------------------------------------------------
+// C15.text.equiv.join_page — SELECT with every join kind x every subset of {WHERE, ORDER BY, LIMIT, OFFSET}
+// ---------------------------------------------------------------------------------------------
+mod page {
+    use super::equiv::run_text;
+    use query_router::{QueryResult, QueryRouter};
+    use relational_engine::{Column, ColumnType, Condition, Row, Schema, Value as RV};
+    use serde_json::{json, Value};
+    use std::collections::HashMap;
+
+    /// (spelling, engine call) — every join kind / spelling of `Parser::try_parse_join`
+    pub const JOINS: [(&str, &str); 10] = [
+        ("JOIN", "inner"), ("INNER JOIN", "inner"), ("LEFT JOIN", "left"), ("LEFT OUTER JOIN", "left"), ("RIGHT JOIN", "right"), ("RIGHT OUTER JOIN", "right"),
+        ("FULL JOIN", "full"), ("FULL OUTER JOIN", "full"), ("CROSS JOIN", "cross"), ("NATURAL JOIN", "natural"),
+    ];
+    /// join condition variants: (id, on_a, on_b)
+    const CONDS: [(&str, &str, &str); 4] = [("on_k", "k", "k"), ("using_k", "k", "k"), ("on_id", "aid", "bid"), ("alias_on_k", "k", "k")];
+
+    /// pre-state, built with direct engine calls only: t (4 rows, from the text.equiv fixture), ta(aid, k, x) and tb(bid, k, y) with
+    /// duplicate keys on both sides and two unmatched rows on each side
+    pub fn fixture() -> Result<QueryRouter, String> {
+        let r = super::equiv::seeded()?;
+        for (t, idc, sc, rows) in [("ta", "aid", "x", [(1, 10, "p"), (2, 20, "q"), (3, 20, "r"), (4, 40, "s"), (6, 60, "t")]),
+                                   ("tb", "bid", "y", [(1, 10, "u"), (2, 20, "v"), (3, 30, "w"), (5, 20, "z"), (7, 70, "y")])] {
+            let schema = Schema::new(vec![Column::new(idc, ColumnType::Int), Column::new("k", ColumnType::Int), Column::new(sc, ColumnType::String)]);
+            r.relational().create_table(t, schema).map_err(|e| e.to_string())?;
+            for (id, k, s) in rows {
+                let mut m = HashMap::new();
+                m.insert(idc.to_string(), RV::Int(id));
+                m.insert("k".to_string(), RV::Int(k));
+                m.insert(sc.to_string(), RV::String(s.to_string()));
+                r.relational().insert(t, m).map_err(|e| e.to_string())?;
+            }
+        }
+        // tn(id, v): v is NULL in two rows
+        r.relational().create_table("tn", Schema::new(vec![Column::new("id", ColumnType::Int), Column::new("v", ColumnType::Int).nullable()])).map_err(|e| e.to_string())?;
+        for (id, v) in [(1, Some(5)), (2, None), (3, Some(7)), (4, None), (5, Some(1))] {
+            let mut m = HashMap::new();
+            m.insert("id".to_string(), RV::Int(id));
+            m.insert("v".to_string(), v.map_or(RV::Null, RV::Int));
+            r.relational().insert("tn", m).map_err(|e| e.to_string())?;
+        }
+        Ok(r)
+    }
+
+    // SQL three-valued logic (None = unknown): a comparison with a missing / NULL operand is unknown, a row is kept iff TRUE
+    fn and3(a: Option<bool>, b: Option<bool>) -> Option<bool> { match (a, b) { (Some(false), _) | (_, Some(false)) => Some(false), (Some(true), Some(true)) => Some(true), _ => None } }
+    fn or3(a: Option<bool>, b: Option<bool>) -> Option<bool> { match (a, b) { (Some(true), _) | (_, Some(true)) => Some(true), (Some(false), Some(false)) => Some(false), _ => None } }
+
+    /// WHERE shapes on a joined row: (text, predicate on the pair)
+    fn join_where(i: u64, la: &str, lb: &str, p: &Pair) -> Option<(String, bool)> {
+        let aid = int_of(p.0.as_ref(), "aid");
+        let bid = int_of(p.1.as_ref(), "bid");
+        let (a, b) = (|f: &dyn Fn(i64) -> bool| aid.map(f), |f: &dyn Fn(i64) -> bool| bid.map(f));
+        let (txt, v): (String, Option<bool>) = match i {
+            0 => (String::new(), Some(true)),
+            1 => (format!("{la}.aid > 1"), a(&|x| x > 1)),
+            2 => (format!("{lb}.bid <= 2"), b(&|x| x <= 2)),
+            3 => (format!("{la}.aid > 1 AND {lb}.bid <= 2"), and3(a(&|x| x > 1), b(&|x| x <= 2))),
+            4 => (format!("{la}.aid = 1 OR {lb}.bid = 5"), or3(a(&|x| x == 1), b(&|x| x == 5))),
+            // AND binds tighter than OR
+            5 => (format!("{la}.aid = 1 OR {la}.aid = 2 AND {lb}.bid = 5"), or3(a(&|x| x == 1), and3(a(&|x| x == 2), b(&|x| x == 5)))),
+            6 => (format!("({la}.aid = 1 OR {la}.aid = 2) AND {lb}.bid = 2"), and3(or3(a(&|x| x == 1), a(&|x| x == 2)), b(&|x| x == 2))),
+            7 => (format!("{lb}.bid IS NULL"), Some(bid.is_none())),
+            8 => (format!("NOT ({la}.aid = 1)"), a(&|x| x == 1).map(|t| !t)),
+            _ => return None,
+        };
+        Some((txt, v == Some(true)))
+    }
+
+    type Pair = (Option<Row>, Option<Row>);
+
+    fn int_of(r: Option<&Row>, col: &str) -> Option<i64> { match r?.get(col)? { RV::Int(i) => Some(*i), _ => None } }
+
+    /// the direct engine call that the grammar dictates for the join kind
+    fn direct_join(r: &QueryRouter, kind: &str, on_a: &str, on_b: &str) -> Result<Vec<Pair>, String> {
+        let e = r.relational();
+        let s = |v: Vec<(Row, Row)>| v.into_iter().map(|(a, b)| (Some(a), Some(b))).collect::<Vec<Pair>>();
+        match kind {
+            "inner" => e.join("ta", "tb", on_a, on_b).map(s),
+            "left" => e.left_join("ta", "tb", on_a, on_b).map(|v| v.into_iter().map(|(a, b)| (Some(a), b)).collect()),
+            "right" => e.right_join("ta", "tb", on_a, on_b).map(|v| v.into_iter().map(|(a, b)| (a, Some(b))).collect()),
+            "full" => e.full_join("ta", "tb", on_a, on_b),
+            "cross" => e.cross_join("ta", "tb").map(s),
+            "natural" => e.natural_join("ta", "tb").map(s),
+            _ => return Err(format!("unknown join kind {kind}")),
+        }.map_err(|e| format!("ERR {e}"))
+    }
+
+    /// observable content of a joined row: every column of both sides under `<table or alias>.<column>`, incl. `_id`
+    fn pair_img(p: &Pair, la: &str, lb: &str) -> String {
+        let mut kv = vec![];
+        for (r, l) in [(&p.0, la), (&p.1, lb)] {
+            if let Some(r) = r {
+                kv.push(format!("{l}._id={:?}", RV::Int(i64::try_from(r.id).unwrap_or(i64::MAX))));
+                for (c, v) in &r.values { kv.push(format!("{l}.{c}={v:?}")); }
+            }
+        }
+        kv.sort();
+        kv.join(",")
+    }
+    fn joined_row_img(r: &Row) -> String {
+        let mut kv: Vec<String> = r.values.iter().map(|(k, v)| format!("{k}={v:?}")).collect();
+        kv.sort();
+        kv.join(",")
+    }
+    fn plain_row_img(r: &Row) -> String { format!("#{}:{}", r.id, joined_row_img(r)) }
+
+    fn opt_usize(v: &Value) -> Result<Option<usize>, String> {
+        if v.is_null() { Ok(None) } else { v.as_u64().map(|n| Some(n as usize)).ok_or_else(|| format!("not a number: {v}")) }
+    }
+
+    fn page<T>(v: Vec<T>, limit: Option<usize>, offset: Option<usize>) -> Vec<T> {
+        v.into_iter().skip(offset.unwrap_or(0)).take(limit.unwrap_or(usize::MAX)).collect()
+    }
+
+    /// None-last ascending comparison of optional integers
+    fn cmp_nl(a: Option<i64>, b: Option<i64>) -> std::cmp::Ordering {
+        match (a, b) { (Some(x), Some(y)) => x.cmp(&y), (Some(_), None) => std::cmp::Ordering::Less, (None, Some(_)) => std::cmp::Ordering::Greater, (None, None) => std::cmp::Ordering::Equal }
+    }
+
+    struct Built { text: String, expected: Result<Vec<String>, String>, full_size: usize, full_set: Vec<String>, ordered: bool, joined: bool }
+
+    /// Builds the statement text and the expected rows (the direct engine call on `b`, filtered / sorted / paged as the text dictates).
+    fn build(case: &Value, b: &QueryRouter) -> Result<Built, String> {
+        let family = case["family"].as_str().ok_or("family")?;
+        let wh = case["where"].as_u64().ok_or("where")?;
+        let order = case["order"].as_u64().ok_or("order")?;
+        let limit = opt_usize(&case["limit"])?;
+        let offset = opt_usize(&case["offset"])?;
+        let mut tail = String::new();
+        let mut joined_override = false;
+        let (head, mut rows, ordered): (String, Result<Vec<String>, String>, bool);
+        if family == "plain" {
+            let (wtxt, cond) = match wh { 0 => ("", Condition::True), 1 => (" WHERE age >= 17", Condition::Ge("age".into(), RV::Int(17))), 2 => (" WHERE age = 17", Condition::Eq("age".into(), RV::Int(17))), _ => return Err("where".into()) };
+            head = format!("SELECT * FROM t{wtxt}");
+            let mut full = b.relational().select("t", cond).map_err(|e| format!("ERR {e}"));
+            if let Ok(v) = &mut full {
+                match order {
+                    0 => {},
+                    1 => { tail.push_str(" ORDER BY id"); v.sort_by_key(|r| int_of(Some(r), "id")); },
+                    2 => { tail.push_str(" ORDER BY id DESC"); v.sort_by_key(|r| std::cmp::Reverse(int_of(Some(r), "id"))); },
+                    3 => { tail.push_str(" ORDER BY age DESC, id"); v.sort_by_key(|r| (std::cmp::Reverse(int_of(Some(r), "age")), int_of(Some(r), "id"))); },
+                    _ => return Err("order".into()),
+                }
+            }
+            rows = full.map(|v| v.iter().map(plain_row_img).collect());
+            ordered = order != 0;
+        } else if family == "join" {
+            let jtxt = case["join"].as_str().ok_or("join")?;
+            let kind = JOINS.iter().find(|(s, _)| *s == jtxt).ok_or("unknown join spelling")?.1;
+            let cid = case["cond"].as_str().ok_or("cond")?;
+            let (la, lb, from_a, from_b, ctxt, on_a, on_b) = if kind == "cross" || kind == "natural" {
+                if !cid.is_empty() { return Err("CROSS / NATURAL JOIN take no condition".into()); }
+                ("ta", "tb", "ta", "tb", String::new(), "", "")
+            } else {
+                let (_, on_a, on_b) = *CONDS.iter().find(|(c, _, _)| *c == cid).ok_or("unknown cond")?;
+                match cid {
+                    "using_k" => ("ta", "tb", "ta", "tb", " USING (k)".to_string(), on_a, on_b),
+                    "alias_on_k" => ("l", "r", "ta AS l", "tb AS r", " ON l.k = r.k".to_string(), on_a, on_b),
+                    _ => ("ta", "tb", "ta", "tb", format!(" ON ta.{on_a} = tb.{on_b}"), on_a, on_b),
+                }
+            };
+            let wtxt = match join_where(wh, la, lb, &(None, None)) { Some((t, _)) if t.is_empty() => String::new(), Some((t, _)) => format!(" WHERE {t}"), None => return Err("where".into()) };
+            head = format!("SELECT * FROM {from_a} {jtxt} {from_b}{ctxt}{wtxt}");
+            let mut full = direct_join(b, kind, on_a, on_b);
+            if let Ok(v) = &mut full {
+                // SQL: a comparison with a missing (NULL) side is not true
+                v.retain(|p| join_where(wh, la, lb, p).is_some_and(|(_, keep)| keep));
+                let key = |p: &Pair| (int_of(p.0.as_ref(), "aid"), int_of(p.1.as_ref(), "bid"));
+                match order {
+                    0 => {},
+                    // ascending on the unique key (aid, bid); the position of NULL keys never matters for LEFT / RIGHT (a NULL is alone
+                    // in its group), for FULL it is stated explicitly
+                    1 => match kind {
+                        "right" => { tail.push_str(&format!(" ORDER BY {lb}.bid, {la}.aid")); v.sort_by(|p, q| cmp_nl(key(p).1, key(q).1).then(cmp_nl(key(p).0, key(q).0))); },
+                        "full" => { tail.push_str(&format!(" ORDER BY {la}.aid NULLS LAST, {lb}.bid NULLS LAST")); v.sort_by(|p, q| cmp_nl(key(p).0, key(q).0).then(cmp_nl(key(p).1, key(q).1))); },
+                        _ => { tail.push_str(&format!(" ORDER BY {la}.aid, {lb}.bid")); v.sort_by(|p, q| cmp_nl(key(p).0, key(q).0).then(cmp_nl(key(p).1, key(q).1))); },
+                    },
+                    // descending, only where no key is NULL
+                    2 => {
+                        if !matches!(kind, "inner" | "cross" | "natural") { return Err("order 2 is defined for joins without NULL keys only".into()); }
+                        tail.push_str(&format!(" ORDER BY {lb}.bid DESC, {la}.aid DESC"));
+                        v.sort_by(|p, q| key(q).1.cmp(&key(p).1).then(key(q).0.cmp(&key(p).0)));
+                    },
+                    _ => return Err("order".into()),
+                }
+            }
+            rows = full.map(|v| v.iter().map(|p| pair_img(p, la, lb)).collect());
+            ordered = order != 0;
+        } else if family == "order_nulls" {
+            let dir = case["dir"].as_str().filter(|d| matches!(*d, "ASC" | "DESC")).ok_or("dir")?;
+            let nulls = case["nulls"].as_str().filter(|d| matches!(*d, "FIRST" | "LAST")).ok_or("nulls")?;
+            // (sort key or NULL, unique second key, row image)
+            let keyed: Result<Vec<(Option<i64>, Option<i64>, String)>, String> = match case["source"].as_str().ok_or("source")? {
+                "table" => {
+                    head = "SELECT * FROM tn".to_string();
+                    tail.push_str(&format!(" ORDER BY v {dir} NULLS {nulls}, id"));
+                    b.relational().select("tn", Condition::True).map_err(|e| format!("ERR {e}")).map(|v| v.iter().map(|r| (int_of(Some(r), "v"), int_of(Some(r), "id"), plain_row_img(r))).collect())
+                },
+                "left_join" => {
+                    head = "SELECT * FROM ta LEFT JOIN tb ON ta.k = tb.k".to_string();
+                    tail.push_str(&format!(" ORDER BY tb.bid {dir} NULLS {nulls}, ta.aid"));
+                    direct_join(b, "left", "k", "k").map(|v| v.iter().map(|p| (int_of(p.1.as_ref(), "bid"), int_of(p.0.as_ref(), "aid"), pair_img(p, "ta", "tb"))).collect())
+                },
+                _ => return Err("source".into()),
+            };
+            joined_override = case["source"] == "left_join";
+            rows = keyed.map(|mut v| {
+                v.sort_by(|x, y| {
+                    let by_null = match (x.0.is_none(), y.0.is_none()) { (true, false) => if nulls == "FIRST" { std::cmp::Ordering::Less } else { std::cmp::Ordering::Greater }, (false, true) => if nulls == "FIRST" { std::cmp::Ordering::Greater } else { std::cmp::Ordering::Less }, _ => std::cmp::Ordering::Equal };
+                    let by_val = if dir == "ASC" { x.0.cmp(&y.0) } else { y.0.cmp(&x.0) };
+                    by_null.then(by_val).then(x.1.cmp(&y.1))
+                });
+                v.into_iter().map(|x| x.2).collect()
+            });
+            ordered = true;
+        } else { return Err(format!("unknown family {family}")); }
+        if let Some(n) = limit { tail.push_str(&format!(" LIMIT {n}")); }
+        if let Some(m) = offset { tail.push_str(&format!(" OFFSET {m}")); }
+        let (full_size, full_set) = match &rows { Ok(v) => { let mut s = v.clone(); s.sort(); (v.len(), s) }, Err(_) => (0, vec![]) };
+        if let Ok(v) = rows { rows = Ok(page(v, limit, offset)); }
+        Ok(Built { text: format!("{head}{tail}"), expected: rows, full_size, full_set, ordered, joined: family == "join" || joined_override })
+    }
+
+    /// size of the unpaged result of the case (for the LIMIT / OFFSET grid)
+    pub fn full_size(case: &Value, b: &QueryRouter) -> Result<usize, String> { build(case, b).map(|x| x.full_size) }
+
+    /// two routers with the identical pre-state: `a` executes the text, `b` the direct engine calls
+    pub struct Ctx { a: QueryRouter, b: QueryRouter, img: String }
+    impl Ctx {
+        pub fn new() -> Result<Self, String> {
+            let (a, b) = (fixture()?, fixture()?);
+            let img = super::equiv::state_img(&a);
+            if img != super::equiv::state_img(&b) { return Err("the two fixtures differ".into()); }
+            Ok(Self { a, b, img })
+        }
+        /// is the pre-state still in place on both routers?
+        pub fn intact(&self) -> bool { super::equiv::state_img(&self.a) == self.img && super::equiv::state_img(&self.b) == self.img }
+    }
+
+    /// Err = the text path and the direct path differ (fresh routers).
+    pub fn eval(case: &Value) -> Result<String, String> { eval_in(case, &Ctx::new()?) }
+
+    /// Same on given routers whose state is the pre-state (every statement of this family is read-only, which is checked).
+    pub fn eval_in(case: &Value, ctx: &Ctx) -> Result<String, String> {
+        let entry = case["entry"].as_str().ok_or("entry")?;
+        let (a, b) = (&ctx.a, &ctx.b);
+        let before = ctx.img.clone();
+        let bt = build(case, b)?;
+        let got = match run_text(a, entry, &bt.text) {
+            Err(p) => return Err(format!("{entry}({:?}) PANICKED: {p}", bt.text)),
+            Ok(Ok(QueryResult::Rows(rows))) => Ok(rows.iter().map(|r| if bt.joined { joined_row_img(r) } else { plain_row_img(r) }).collect::<Vec<String>>()),
+            Ok(Ok(o)) => Err(format!("{o:?}")),
+            Ok(Err(e)) => Err(format!("ERR {e}")),
+        };
+        let after = super::equiv::state_img(a);
+        let same = match (&got, &bt.expected) {
+            (Ok(g), Ok(x)) => g == x,
+            (Err(g), Err(x)) => g == x,
+            _ => false,
+        };
+        if same && before == after && after == super::equiv::state_img(b) {
+            return Ok(format!("{entry}({:?}): {} row(s) of {}, same rows in the same order as the direct call, state unchanged", bt.text, bt.expected.as_ref().map_or(0, Vec::len), bt.full_size));
+        }
+        // what exactly differs
+        let mut why = vec![];
+        if let (Ok(g), Ok(x)) = (&got, &bt.expected) {
+            if g.len() != x.len() { why.push(format!("{} row(s) instead of {}", g.len(), x.len())); }
+            if g.iter().any(|r| bt.full_set.binary_search(r).is_err()) { why.push("a row that is not in the unpaged result".to_string()); }
+            let (mut gs, mut xs) = (g.clone(), x.clone());
+            gs.sort(); xs.sort();
+            if gs == xs && g != x { why.push(if bt.ordered { "right rows, wrong order".to_string() } else { "right rows, but not in the engine's own order".to_string() }); }
+            else if g.len() == x.len() && gs != xs { why.push("wrong page of the result".to_string()); }
+        }
+        if before != after { why.push("the statement changed the engine state".to_string()); }
+        Err(format!("{entry}({:?}) => {}; direct engine call + {} => {} [{}]", bt.text,
+            got.as_ref().map_or_else(Clone::clone, |g| format!("Rows{g:?}")),
+            if bt.ordered { "sort on the unique key + skip(OFFSET).take(LIMIT)" } else { "skip(OFFSET).take(LIMIT) in the engine's order" },
+            bt.expected.as_ref().map_or_else(Clone::clone, |x| format!("Rows{x:?}")), why.join("; ")))
+    }
+
+    fn grid(size: usize) -> Vec<usize> {
+        let mut v = vec![0, 1, 2, size.saturating_sub(1), size, size + 1];
+        v.sort_unstable();
+        v.dedup();
+        v
+    }
+
+    /// every case of the family (the grid depends on the size of the unpaged result, computed with direct engine calls)
+    pub fn cases() -> Result<Vec<(&'static str, Value)>, String> {
+        let b = fixture()?;
+        let mut out: Vec<(&'static str, Value)> = vec![];
+        let mut shapes: Vec<Value> = vec![];
+        for (jtxt, kind) in JOINS {
+            let conds: Vec<&str> = match kind {
+                "cross" | "natural" => vec![""],
+                _ if jtxt.contains("OUTER") => vec!["on_k"],
+                _ => if matches!(jtxt, "JOIN" | "LEFT JOIN" | "FULL JOIN") { vec!["on_k", "using_k", "on_id", "alias_on_k"] } else { vec!["on_k", "using_k", "on_id"] },
+            };
+            for c in conds { for wh in 0..3 { for order in 0..3 {
+                if order == 2 && !matches!(kind, "inner" | "cross" | "natural") { continue; }
+                shapes.push(json!({"family": "join", "join": jtxt, "cond": c, "where": wh, "order": order, "entry": "execute_parsed"}));
+            } } }
+        }
+        for wh in 0..3 { for order in 0..4 { shapes.push(json!({"family": "plain", "where": wh, "order": order, "entry": "execute_parsed"})); } }
+        // the legacy grammar of `execute` has SELECT * FROM t [WHERE c] [LIMIT n] only
+        for wh in 0..3 { shapes.push(json!({"family": "plain", "where": wh, "order": 0, "entry": "execute"})); }
+        for sh in shapes {
+            let mut probe = sh.clone();
+            probe["limit"] = Value::Null;
+            probe["offset"] = Value::Null;
+            let g = grid(full_size(&probe, &b)?);
+            let legacy = sh["entry"] == "execute";
+            let mut lims: Vec<Value> = vec![Value::Null];
+            lims.extend(g.iter().map(|n| json!(n)));
+            let mut offs: Vec<Value> = vec![Value::Null];
+            if !legacy { offs.extend(g.iter().map(|n| json!(n))); }
+            for l in &lims { for o in &offs {
+                let mut c = sh.clone();
+                c["limit"] = l.clone();
+                c["offset"] = o.clone();
+                out.push(("C15.text.equiv.join_page", c));
+            } }
+        }
+        // compound / non-comparison WHERE on a joined row (every join kind, unpaged)
+        for jtxt in ["JOIN", "LEFT JOIN", "RIGHT JOIN", "FULL JOIN", "CROSS JOIN", "NATURAL JOIN"] {
+            let c = if matches!(jtxt, "CROSS JOIN" | "NATURAL JOIN") { "" } else { "on_k" };
+            for wh in 3..9 { out.push(("C15.text.equiv.join_where", json!({"family": "join", "join": jtxt, "cond": c, "where": wh, "order": 0, "limit": null, "offset": null, "entry": "execute_parsed"}))); }
+        }
+        // explicit NULLS FIRST / LAST in both directions, on a nullable column and on the missing side of an outer join
+        for source in ["table", "left_join"] { for dir in ["ASC", "DESC"] { for nulls in ["FIRST", "LAST"] { for limit in [Value::Null, json!(2)] {
+            out.push(("C15.text.equiv.order_nulls", json!({"family": "order_nulls", "source": source, "dir": dir, "nulls": nulls, "where": 0, "order": 1, "limit": limit, "offset": null, "entry": "execute_parsed"})));
+        } } } }
+        // `execute` (the entry point the gRPC server calls) on the paging / ordering clauses its legacy grammar lacks
+        for (order, limit, offset) in [(0, json!(1), json!(1)), (0, Value::Null, json!(1)), (0, json!(2), json!(0)), (1, Value::Null, Value::Null), (2, json!(2), Value::Null)] {
+            out.push(("C15.text.equiv.legacy_page", json!({"family": "plain", "where": 0, "order": order, "limit": limit, "offset": offset, "entry": "execute"})));
+        }
+        Ok(out)
+    }
+}
 // ---------------------------------------------------------------------------------------------
 
-const OBS: [(&str, &str); 9] = [
+const OBS: [(&str, &str); 14] = [
+    ("C15.text.equiv.join_where", "QueryRouter::execute_parsed (exec_select_with_joins / evaluate_join_condition) vs RelationalEngine join family + filter"),
+    ("C15.text.equiv.order_nulls", "QueryRouter::execute_parsed (sort_rows / compare_values_with_nulls) vs RelationalEngine::{select,left_join} + sort"),
+    ("C15.text.equiv.legacy_page", "QueryRouter::execute (execute_select) vs RelationalEngine::select + sort / skip / take"),
+    ("C15.precedence.postfix", "neumann_parser::parse_expr (ExprParser::parse_postfix / parse_between_expr / parse_like_expr / parse_in_expr) and neumann_parser::parse (Parser::parse_postfix_expr ...)"),
+    ("C15.text.equiv.join_page", "QueryRouter::execute_parsed (exec_select / exec_select_with_joins) vs RelationalEngine::{select,join,left_join,right_join,full_join,cross_join,natural_join}"),
     ("C15.total.execute", "QueryRouter::{execute,execute_parsed}"),
     ("C15.total.bytes", "neumann_parser::{tokenize,parse,parse_all,parse_expr}"),
     ("C15.determinism", "neumann_parser::{tokenize,parse,parse_all,parse_expr}"),
@@ -650,9 +1528,10 @@ pub fn run(tier: Tier, seed: u64) -> Report {
     let thorough = tier == Tier::Thorough;
     let maxlen = if thorough { 4 } else { 3 };
     let mut rep = Report::new("c15_parser",
-        &format!("total/determinism: all strings of <= {maxlen} symbols over a 40-symbol alphabet (letters a S E, digits, blank, newline, both quotes, backslash, brackets, punctuation, all operator characters, e-acute, NUL) + 48 statement/clause keyword prefixes x all strings of <= 2 symbols{}; depth: 16 nesting families x 4 entry points (parse_expr, parse/parse_all of SELECT e, parse of SELECT..WHERE e) x n in {{1,2,63,64,65,66,200 in-process; 1000,10000,100000 in a child process}}, flat chains n in {{100,2000}}; precedence: all 10121 trees of height <= 3 over 19 binary + 3 unary operators, minimal and full parentheses, via parse_expr and via parse(\"SELECT e\"){}; 25 operator lexemes; text.equiv: 7 statement families (10 WHERE shapes for SELECT/UPDATE/DELETE) through execute_parsed and, where the text is valid in both languages, through execute = 54 statements against the direct engine call; total.execute: 6 statement prefixes x all strings of <= 3 symbols over {{a,1,blank,=,quote,' AND ',' OR ',dotless-i,e-acute,fi-ligature}} = 6666 texts",
+        &format!("total/determinism: all strings of <= {maxlen} symbols over a 40-symbol alphabet (letters a S E, digits, blank, newline, both quotes, backslash, brackets, punctuation, all operator characters, e-acute, NUL) + 48 statement/clause keyword prefixes x all strings of <= 2 symbols{}; depth: 16 nesting families x 4 entry points (parse_expr, parse/parse_all of SELECT e, parse of SELECT..WHERE e) x n in {{1,2,63,64,65,66,200 in-process; 1000,10000,100000 in a child process}}, flat chains n in {{100,2000}}; precedence: all 10121 trees of height <= 3 over 19 binary + 3 unary operators, minimal and full parentheses, via parse_expr and via parse(\"SELECT e\"){}; 25 operator lexemes; text.equiv: 7 statement families (10 WHERE shapes for SELECT/UPDATE/DELETE) through execute_parsed and, where the text is valid in both languages, through execute = 54 statements against the direct engine call; precedence.postfix: all 60543 expression trees of height <= 3 over the whole expression grammar (19 binary, 3 unary, 25 postfix/special forms: IS [NOT] NULL, [NOT] IN list/sub-query, [NOT] BETWEEN, [NOT] LIKE, qualified name, calls, CASE, CAST, EXISTS, array, tuple; operands of height 2 over one binary operator per level, all unary, all special forms; every pair of operand positions for arity >= 3) in minimal / full / bare parenthesisation through parse_expr and parse(\"SELECT * FROM t WHERE e\") incl. agreement of the two{}; text.equiv.join_page: 10 join spellings x ON/USING/alias conditions x 3 WHERE x 2-3 ORDER BY shapes x (LIMIT, OFFSET) in {{absent,0,1,2,size-1,size,size+1}}^2 on 5x5-row tables with duplicate and unmatched keys + plain SELECT grid = 7518 statements, row-by-row in order against the engine's join family; join_where 36, order_nulls 16, legacy_page 5 statements; total.execute: 6 statement prefixes x all strings of <= 3 symbols over {{a,1,blank,=,quote,' AND ',' OR ',dotless-i,e-acute,fi-ligature}} = 6666 texts",
                  if thorough { " + 20000 seeded keyword-soup strings up to 4 KB (not exhaustive)" } else { "" },
-                 if thorough { "; height 4 over one operator per precedence level + unary minus (10.9 M trees, parse_expr, exhaustive) + 20000 seeded random trees of height <= 8 over all operators (not exhaustive)" } else { "" }),
+                 if thorough { "; height 4 over one operator per precedence level + unary minus (10.9 M trees, parse_expr, exhaustive) + 20000 seeded random trees of height <= 8 over all operators (not exhaustive)" } else { "" },
+                 if thorough { " + height 4 with one operand of height 3 (2.76 M trees) + 30000 seeded random trees of height <= 8 with literal leaves (not exhaustive)" } else { "" }),
         true, &["neumann_parser::tokenize", "parse", "parse_all", "parse_expr", "query_router::QueryRouter::execute"]);
     for (o, f) in OBS { rep.declare(o, f); }
     for n in 0..8 { assert!(matches!(via_expr(&leaf_name(n)), Ok(T::Leaf(_))), "leaf name is not a plain identifier"); }
@@ -710,6 +1589,32 @@ pub fn run(tier: Tier, seed: u64) -> Report {
         for _ in 0..20000 { let t = random_tree(&mut rng, 8); check_tree(&mut rep, &t, true); }
     }
 
+    // --- precedence of the postfix / special forms (whole expression grammar), both parsers
+    {
+        let check_p = |rep: &mut Report, shape: postfix::P| {
+            let mut k = 0;
+            let t = postfix::label(&shape, &mut k);
+            let r = postfix::eval(&t);
+            for _ in 0..r.as_ref().map_or(2, |n| *n) { rep.eval(true); }
+            rep.check("C15.precedence.postfix", r.is_ok(), &|| json!({"tree": postfix::to_json(&t)}), &|| r.clone().err().unwrap_or_default());
+        };
+        // height <= 3: every constructor (all 19 binary, 3 unary, 21 special forms) over every height-2 tree (one binary operator per level)
+        let inner = postfix::height2(&postfix::ctors(false));
+        for t in &inner { check_p(&mut rep, t.clone()); }
+        for k in postfix::ctors(true) { postfix::over(&k, &inner, &mut |t| check_p(&mut rep, t)); }
+        rep.sample(json!({"tree": postfix::to_json(&postfix::P::Bin(Box::new(postfix::P::Between(Box::new(postfix::P::Leaf("a".into())), Box::new(postfix::P::Leaf("b".into())), Box::new(postfix::P::Leaf("c".into())), false)), BinaryOp::Mul, Box::new(postfix::P::Leaf("d".into())))), "minimal": "a BETWEEN b AND c * d"}));
+        if thorough {
+            // height 4: every constructor with ONE operand of height <= 3 (built like above over one binary operator per level)
+            let ks = postfix::ctors(false);
+            let mut h3: Vec<postfix::P> = vec![];
+            for k in &ks { postfix::over(k, &inner, &mut |t| h3.push(t)); }
+            for k in &ks { postfix::one_hole(k, &h3, &mut |t| check_p(&mut rep, t)); }
+            let sp = postfix::special_forms();
+            let mut rng = Rng(seed ^ 0xC15_F0F);
+            for _ in 0..30000 { let t = postfix::random(&mut rng, 8, &sp, true); check_p(&mut rep, t); }
+        }
+    }
+
     // --- text equivalence
     for (fam, entries) in equiv::FAMILIES {
         for entry in entries {
@@ -721,6 +1626,21 @@ pub fn run(tier: Tier, seed: u64) -> Report {
             }
         }
     }
+    // --- joins x {WHERE, ORDER BY, LIMIT, OFFSET}, plain SELECT paging
+    let mut ctx: Option<page::Ctx> = None;
+    match page::cases() {
+        Ok(cases) => for (ob, c) in cases {
+            // the statements are read-only: the routers are shared while their state is verified to be the pre-state; a failure
+            // is re-evaluated on fresh routers (= what `replay` does)
+            if ctx.as_ref().map_or(true, |x| !x.intact()) { ctx = page::Ctx::new().ok(); }
+            let mut r = match &ctx { Some(x) => page::eval_in(&c, x), None => Err("cannot build the fixture with direct engine calls".to_string()) };
+            if r.is_err() { let fresh = page::eval(&c); if fresh.is_ok() { r = r.map_err(|e| format!("{e} [only after earlier SELECTs on the same router; holds on fresh routers]")); } else { r = fresh; } }
+            rep.eval(!(c["limit"].is_null() && c["offset"].is_null()));
+            rep.check(ob, r.is_ok(), &|| c.clone(), &|| r.clone().err().unwrap_or_default());
+        },
+        Err(e) => rep.check("C15.text.equiv.join_page", false, &|| json!({"fixture": true}), &|| format!("cannot build the fixture / case list with direct engine calls: {e}")),
+    }
+    rep.sample(json!({"family": "join", "join": "LEFT JOIN", "cond": "on_k", "where": 0, "order": 0, "limit": 2, "offset": 1, "entry": "execute_parsed"}));
     // --- text execution is total (no panic) on WHERE-clause soup incl. characters whose upper-case form has another byte length
     {
         const SYM: [&str; 10] = ["a", "1", " ", "=", "'", " AND ", " OR ", "\u{131}", "\u{e9}", "\u{fb01}"];
@@ -761,6 +1681,20 @@ pub fn replay(ob: &str, case: &Value) -> Result<String, String> {
         },
         "C15.op.mapping" => op_mapping_eval(case["lexeme"].as_str().ok_or("lexeme")?, case["op"].as_str().ok_or("op")?).map(|()| "maps".to_string()),
         "C15.text.equiv" => equiv::eval(case["family"].as_str().ok_or("family")?, case["i"].as_u64().ok_or("i")? as usize, case["entry"].as_str().ok_or("entry")?).ok_or("no such case")?,
+        "C15.precedence.postfix" => {
+            let t = postfix::from_json(&case["tree"]).ok_or("case.tree malformed")?;
+            postfix::eval(&t).map(|n| format!("{}: minimal {:?} / full / bare forms give the dictated tree in both parsers ({n} parser calls)", case["tree"], postfix::print(&t, postfix::Mode::Min).out))
+        },
+        "C15.text.equiv.join_page" | "C15.text.equiv.join_where" | "C15.text.equiv.order_nulls" | "C15.text.equiv.legacy_page" => page::eval(case),
+        "C15.debug.query" => {
+            let r = page::fixture()?;
+            let q = case["text"].as_str().ok_or("text")?;
+            Ok(format!("{:?}", equiv::run_text(&r, case["entry"].as_str().unwrap_or("execute_parsed"), q)))
+        },
+        "C15.debug.expr" => {
+            let q = case["text"].as_str().ok_or("text")?;
+            Ok(format!("expr: {:?}\nstmt: {:?}", parse_expr(q).map(|e| postfix::to_json(&postfix::strip(&e)).to_string()), parse(&format!("SELECT * FROM t WHERE {q}")).map(|s| match s.kind { StatementKind::Select(x) => x.where_clause.map(|w| postfix::to_json(&postfix::strip(&w)).to_string()), _ => None })))
+        },
         "C15.total.execute" => equiv::total_eval(case["entry"].as_str().ok_or("entry")?, case["text"].as_str().ok_or("text")?),
         _ => Err(format!("unknown obligation {ob}")),
     }
